@@ -61,6 +61,43 @@ def run(ctx: Ctx, mock_mod) -> bool:
     except Unsupported as e:
         ctx.undecided("R-C21.2", key, where, str(e))
         return False
+    # plain Python values go to the real builtin and its result comes back unchanged (`int(True)` is 1, not True)
+    plain_bad = []
+    try:
+        for bname, dunder in MOCKS:
+            c = idx.classes.get(f"{mock_mod.name}.{bname}")
+            f = c.methods["__new__"] if c is not None and "__new__" in c.methods else idx.funcs.get(f"{mock_mod.name}.{bname}")
+            a = f.node.args
+            pos = [x.arg for x in a.posonlyargs + a.args]
+            for val in ((True, 7, 2.5, "12") if bname != "len" else ([1, 2], "ab", (1,))):
+                calls = []
+                env = {}
+                if f.node.name == "__new__":
+                    env[pos[0]] = Tok("cls")
+                    env[pos[1]] = val
+                else:
+                    env[pos[0]] = val
+                if a.vararg:
+                    env[a.vararg.arg] = ()
+                if a.kwarg:
+                    env[a.kwarg.arg] = {}
+                result = Tok("builtin_result", __ident__=1)
+                for b in ("int", "float", "len"):
+                    env[f"builtins.{b}"] = lambda nd, e, en, b=b, result=result: calls.append((f"builtins.{b}", [e.ev(nd.args[0], en)] if nd.args else [])) or result
+                try:
+                    out = PyEval(idx, mock_mod.name, max_depth=4).run(f.node.body, env)
+                except Raised as e:
+                    plain_bad.append({"mock": bname, "argument": repr(val), "outcome": f"raises {e.cls or e}"})
+                    continue
+                got = out[1] if out[0] == "return" else None
+                if got is not result or calls != [(f"builtins.{bname}", [val])]:
+                    plain_bad.append({"mock": bname, "argument": repr(val), "returns": repr(got), "calls": repr(calls), "should": f"return builtins.{bname}(argument)"})
+    except Unsupported as e:
+        ctx.undecided("R-C21.2", f"{mock_mod.name}#plain-values-go-to-the-real-builtin", where, str(e))
+    else:
+        ctx.check(not plain_bad, "R-C21.2", f"{mock_mod.name}#plain-values-go-to-the-real-builtin", where, {"counterexamples": plain_bad[:4]},
+                  "a mocked builtin answers for a plain Python value itself instead of asking the real builtin: `int(True)` is `True` (a Guppy bool) "
+                  "in a comptime function but 1 in a regular one")
     bad = []
     for cls in traced:
         fw = {b: verdict[(b, cls)] for b, _ in MOCKS}
